@@ -15,7 +15,8 @@ RULE = ("naming: all ordered pairs of unmixed names with <= 3 accidentals (49^2;
         "shorthand: the same names x 35 shorthands ('', #, ##, b, bb x degree 1-7) x {up, down}, enumerated (up cases also "
         "go back down); invert: fixed small lists plus Hypothesis lists (length 0-8) of note names, ints, None, text and "
         "nested lists. Non-trivial: a pair with a non-zero quality offset or a unison pair with |accidental difference| "
-        ">= 2; a shorthand with two accidentals; a list of >= 2 elements that is not a palindrome.")
+        ">= 2; a shorthand with two accidentals; a list of >= 2 elements that is not a palindrome."
+        " Also: pairs with mixed spellings (naming clause; inverse up to letter and pitch); the reversed pair and the module's other helpers (get_interval with a key, interval, measure) are called before each question; keyword and default forms of the direction argument are compared with the positional call.")
 ASSUMPTIONS = [
     "oracle: own letter/semitone arithmetic and own interval-name rule in vlib/ref/theory.py",
     "pairs outside the stated 0..11 semitone window (e.g. C -> Cb, C -> B##) are not generated",
